@@ -42,6 +42,13 @@ def run(v, tier, seed, replay):
                "0 childLocalRe c 63", "0 sleep 300", "0 drop c", "0 close", "0 close", "0 drop r", "0 cycle", "0 stats"]
         cases.append(ren)
         specs.append(proggen.spec_of(ren))
+        # a span whose name is the empty string (legal through the API) is timed like any other, whichever constructor made it
+        for mk in (["0 root e - 2 0 1"], ["0 root p 70 2 0 1", "0 child1 e - p"], ["0 root p 70 2 0 1", "0 scope p", "0 childLocal e -", "0 close"],
+                   ["0 root p 70 2 0 1", "0 root q 71 3 0 1", "0 childN e - p,q", "0 drop q"]):
+            emp = ["0 spawn", "0 setReporter 0", "0 sleep 300000"] + mk + ["0 sleep 2500", "0 child1 c 63 e", "0 sleep 2500", "0 elapsed e", "0 drop c", "0 drop e"] \
+                + (["0 drop p"] if any(" p " in x or x.endswith(" p") or " p," in x for x in mk) else []) + ["0 cycle", "0 stats"]
+            cases.append(emp)
+            specs.append(proggen.spec_of(emp))
     impl = seqrun.run_impl(cases, env={"FH_TIMES": "1"}) if ok else None
     model = seqrun.run_model(cases)
     fails, mism, nontriv, recs = [], [], set(), 0
